@@ -3798,6 +3798,9 @@ class CaseNode(Node):
                     original_backreference[None] = None
                     empty_backreference[None] = None
 
+        if not mergeable_ds:
+            raise IllegalASTStateError("A case statement needs at least one clause with a pattern", self)
+
         # Create the merged acceptor
         decider_dfa, corresponding_finish_states = self._merge(mergeable_ds, current_error_handlers[ErrorReasons.NO_MATCH], priorities)
 
